@@ -20,6 +20,8 @@ def run_concrete(fn, params, values, opts=None):
     """Run the harness on float64 with the real NumPy/SciPy/teneva."""
     npshim.uninstall()
     engine.CTX = None
+    if (opts or {}).get('monitor'):
+        monitors.install()
     cctx = ConcreteContext(values, opts)
     out = {'claims': [], 'exception': None, 'skipped': False}
     try:
